@@ -165,6 +165,7 @@ func (r *replica) start(initialMembers map[uint64]string, initial bool) {
 	r.transferTo = 0
 	r.pushedIndex, r.appliedIndex, r.confirmedIndex = 0, 0, 0
 	r.ssIndex, r.ssReqIndex, r.compactLogTo = 0, 0, 0
+	r.store.openReal() // a restart reopens a real log store (nothing cached survives)
 	r.lr = logdb.NewLogReader(r.cfg.ShardID, r.id, r.store)
 	r.snap = &memSnapshotter{st: r.store, lrf: func() pb.Snapshot { return r.lr.Snapshot() }}
 	r.lr.SetCompactor(r.snap)
@@ -191,6 +192,9 @@ func (r *replica) start(initialMembers map[uint64]string, initial bool) {
 		}
 		r.lr.SetRange(rs.FirstIndex, rs.EntryCount)
 		newNode = ss.Index <= 0 && rs.EntryCount <= 0 && !hasRaftState
+		if r.store.real != nil {
+			r.sim.mon.onRecoveredFromRealStore(r, rs)
+		}
 	}
 	// the bootstrap record (saved before the first launch) gives the same
 	// members and join flag on every start
